@@ -37,6 +37,7 @@ def run(ctx):
         ctx.guard("order-preserved" + tag, order_preserved, ctx, crate, crs, tag)
         ctx.guard("first-candidate" + tag, first_candidate, ctx, crate, crs, tag)
         ctx.guard("union-order" + tag, union_order, ctx, crate, crs, tag)
+        ctx.guard("union-order" + tag, smallvec_order, ctx, crate, crs, tag)
         # the candidate lists the clauses are built from are the provider's (filter flag / map agreement, memoised under the right key)
         import mech
         ctx.guard("candidate-lists" + tag, mech.memo_check, ctx, "candidate-lists", crate, crs, tag)
@@ -348,3 +349,74 @@ def union_order(ctx, crate, crs, tag):
             if f["name"] == "version_set_unions":
                 ctx.ob(R, "resolvo::snapshot::DependencySnapshot", "unions-are-sequences", "Vec<" in f["ty"] and "HashSet" not in f["ty"], "",
                        "snapshot version_set_unions: %s" % f["ty"][:100])
+
+
+SMALLVEC = "resolvo::internal::small_vec::SmallVec::"
+
+
+def smallvec_order(ctx, crate, crs, tag, rule="union-order"):
+    """The sequence type union members are stored in appends at the end and exposes every element: `push` builds each larger
+    variant from the old elements in index order followed by the new one; `as_slice` hands out the whole payload of every
+    variant.  (A union with three or more members crosses the Two -> Flexible boundary; the test suite's unions have two.)"""
+    R = rule + tag
+    b = body_by_key(crate, SMALLVEC + "push")
+    if b is None:
+        ctx.ob(R, SMALLVEC + "push", "exists", False, "", "SmallVec::push not found")
+        return
+
+    def resolve(o, depth=8):
+        """('new',) | ('elem', k) | ('payload',) | ('?',)"""
+        for _ in range(depth):
+            if o.get("k") not in ("copy", "move"):
+                return ("?",)
+            p = o["p"]
+            proj = p.get("p", [])
+            if p["l"] == 2 and not proj:
+                return ("new",)
+            cidx = [e["cidx"] for e in proj if isinstance(e, dict) and "cidx" in e and not e.get("from_end")]
+            if cidx:
+                return ("elem", cidx[0])
+            if any(isinstance(e, dict) and "f" in e for e in proj):
+                return ("payload",)
+            defs = [s for i, j, s in b.assigns() if s["p"]["l"] == p["l"] and not s["p"].get("p")]
+            if len(defs) != 1 or defs[0]["r"]["k"] != "use":
+                return ("?",)
+            o = defs[0]["r"]["o"]
+        return ("?",)
+
+    arrays = [(i, j, s) for i, j, s in b.assigns() if s["r"]["k"] == "agg" and s["r"].get("ak") == "array" and s["r"]["ops"]]
+    names = [t["f"]["name"] for i, t in b.calls() if t.get("f")]
+    bad_calls = set(names) & {"insert", "swap_remove", "reverse", "rotate_left", "rotate_right", "swap", "sort", "sort_by", "sort_unstable", "dedup", "retain", "truncate"}
+    if arrays:
+        ok = True
+        detail = []
+        for i, j, s in arrays:
+            got = [resolve(o) for o in s["r"]["ops"]]
+            want = [("elem", k) for k in range(len(got) - 1)] + [("new",)]
+            detail.append("%s" % (got,))
+            if got != want:
+                ok = False
+        ctx.ob(R, b.key, "push-appends-in-order", ok and not bad_calls, b.loc(),
+               "every fixed-size variant built by push lists the old elements in index order followed by the new element (%s)%s"
+               % ("; ".join(detail)[:200], "; re-ordering call: %s" % sorted(bad_calls) if bad_calls else ""))
+    pushes = [(i, t) for i, t in b.calls() if t.get("f") and t["f"]["name"] == "push" and "Vec" in t["f"].get("path", "")]
+    okp = bool(pushes) and all(resolve(t["args"][1]) == ("new",) for i, t in pushes)
+    ctx.ob(R, b.key, "push-appends-to-the-vector", okp and not bad_calls, b.loc(),
+           "the growable variant receives the new element through Vec::push (append), nothing re-orders it")
+    a = body_by_key(crate, SMALLVEC + "as_slice")
+    if a is None:
+        ctx.ob(R, SMALLVEC + "as_slice", "exists", False, "", "SmallVec::as_slice not found")
+        return
+    shown = set()
+    for i, j, s in a.assigns():
+        r = s["r"]
+        if r["k"] == "ref":
+            for e in r["p"].get("p", []):
+                if isinstance(e, dict) and e.get("as"):
+                    shown.add(e["as"])
+                if isinstance(e, dict) and e.get("v") is not None and e.get("f") == 0:
+                    shown.add(str(e["v"]))
+    anames = {t["f"]["name"] for i, t in a.calls() if t.get("f")}
+    narrowing = anames - {"deref", "as_slice", "as_ref", "borrow", "as_ptr", "len", "from_raw_parts"}
+    ctx.ob(R, a.key, "as-slice-exposes-every-variant", {"One", "Two", "Flexible"} <= shown and not narrowing, a.loc(),
+           "as_slice borrows the whole payload of One, Two and Flexible (found %s%s)" % (sorted(shown), "; other calls: %s" % sorted(narrowing) if narrowing else ""))
